@@ -40,6 +40,11 @@ def exc_info(e):
 def run_job(job):
     from vt import tree2ast
 
+    if job.get("op") == "insn":
+        return run_insn(job)
+    if job.get("op") == "names":
+        return {"id": job["id"], "names": list(behaviors().keys())}
+
     res = {"id": job["id"]}
     try:
         with contextlib.redirect_stdout(io.StringIO()):
@@ -72,6 +77,67 @@ def run_job(job):
             res.update(ok=False, hpost=holder.hybrid_op_count, **exc_info(e))
         finally:
             tr.reset()
+    except Exception as e:
+        res.update(ok=False, exc="HARNESS:" + type(e).__name__, msg=traceback.format_exc()[-400:], stage="harness")
+    return res
+
+
+_behaviors = {}
+
+
+def behaviors():
+    if not _behaviors:
+        c = compiler("READ_STATEMENTS")
+        with contextlib.redirect_stdout(io.StringIO()):
+            c.preprocessor.behaviors.clear()
+            c.preprocessor.load_insn_behavior()
+        _behaviors.update(c.preprocessor.behaviors)
+    return _behaviors
+
+
+def run_insn(job):
+    """compile one bundled instruction through the public path: parse_single + transform_insn"""
+    from vt import tree2ast
+    from rzilcompiler.Parser import InsnParsingBundle, parse_single
+    res = {"id": job["id"], "name": job["name"]}
+    try:
+        with contextlib.redirect_stdout(io.StringIO()):
+            c = compiler(job.get("fmt", "READ_STATEMENTS"))
+            beh = behaviors().get(job["name"])
+        if beh is None:
+            res.update(ok=False, stage="load", exc="KeyError", msg="no such instruction")
+            return res
+        res["behaviors"] = beh
+        if "grammar" not in _comp:
+            from rzilcompiler.Configuration import Conf, InputFile
+            with open(Conf.get_path(InputFile.GRAMMAR, "Hexagon")) as f:
+                _comp["grammar"] = f.read()
+        # parse with the compiler's own parser object (same grammar as parse_single; avoids re-building Lark per insn)
+        asts = []
+        try:
+            for b in beh:
+                asts.append(c.parser.parse(b))
+        except Exception as e:
+            res.update(ok=False, stage="parse", exc=type(e).__name__, msg=str(e)[:200])
+            return res
+        from rzilcompiler.Parser import ParsedInsn
+        res["asts"] = []
+        for t in asts:
+            try:
+                res["asts"].append(tree2ast.program(t))
+            except Exception as e:
+                res["asts"].append(None)
+                res.setdefault("unmapped", []).append(f"{type(e).__name__}: {e}")
+        holder = c.transformer.il_ops_holder
+        res["hpre"] = holder.hybrid_op_count
+        try:
+            with contextlib.redirect_stdout(io.StringIO()):
+                ri = c.transform_insn(job["name"], ParsedInsn(job["name"], asts, beh))
+            res.update(ok=True, texts=list(ri.rzil), metas=[list(m) for m in ri.meta], needs_hi=[bool(x) for x in ri.needs_hi],
+                       needs_pkt=[bool(x) for x in ri.needs_pkt], getter_names=list(ri.getter_rzil["name"]),
+                       getter_decls=list(ri.getter_rzil["fcn_decl"]), insn=ri.name, hpost=holder.hybrid_op_count)
+        except Exception as e:
+            res.update(ok=False, hpost=holder.hybrid_op_count, **exc_info(e))
     except Exception as e:
         res.update(ok=False, exc="HARNESS:" + type(e).__name__, msg=traceback.format_exc()[-400:], stage="harness")
     return res
